@@ -439,7 +439,20 @@ func fixedPointSweep(s *Scratch, runner *clisim.Runner, seed uint64, npkgs int, 
 			out := filepath.Join(dir, "mock_gen.go")
 			os.Remove(out)
 			args := append(corpus.Flags{Stub: c.Flags.Stub, SkipEnsure: c.Flags.SkipEnsure, WithResets: c.Flags.WithResets, Fmt: c.Flags.Fmt}.Args(), "-out", "mock_gen.go")
-			tail := append([]string{"."}, c.Names...)
+			names := c.Names
+			first := filepath.Join(dir, "mock_a_gen.go")
+			os.Remove(first)
+			if len(names) >= 2 {
+				// another generated file lives in the package (it sorts right
+				// before the one under test): the mock of the first interface
+				fa := append(corpus.Flags{Stub: c.Flags.Stub, SkipEnsure: c.Flags.SkipEnsure, WithResets: c.Flags.WithResets, Fmt: c.Flags.Fmt}.Args(), "-out", "mock_a_gen.go", ".", names[0])
+				if runner.RunPlain(dir, fa, tmp) == 0 {
+					names = names[1:]
+				} else {
+					os.Remove(first)
+				}
+			}
+			tail := append([]string{"."}, names...)
 			var files [3][]byte
 			var exits [3]int
 			for k := 0; k < 3; k++ {
@@ -451,6 +464,7 @@ func fixedPointSweep(s *Scratch, runner *clisim.Runner, seed uint64, npkgs int, 
 				files[k], _ = os.ReadFile(out)
 			}
 			os.Remove(out)
+			os.Remove(first)
 			mu.Lock()
 			runs += 3
 			cmd := "moq " + strings.Join(append(args, tail...), " ")
